@@ -76,6 +76,9 @@ class ExpTable:
         self.tab = {}
 
     def get(self, x):
+        if x not in self.tab and x > 1000:
+            # exp(-x) < 2**-1440: below the smallest positive double, and below every value the uniform draw can take except 0
+            self.tab[x] = (F(0), F(1, 2 ** 1100))
         if x not in self.tab:
             import mpmath
             mpmath.mp.dps = 60
@@ -147,7 +150,13 @@ def dy(rng):
     return F(rng.randint(-16, 16) or 1, rng.choice([1, 1, 2, 4, 8]))
 
 
-def gen_model(rng, fn, uni):
+def dyw(rng):
+    """integers that need 25-26 significant bits, of both signs: exact in double precision (and so are the sums of a handful
+    of them), not in single precision; local fields made of them nearly cancel"""
+    return F(rng.choice([-1, 1]) * 2 ** 24 + rng.randint(-3, 3))
+
+
+def gen_model(rng, fn, uni, dy=dy):
     quad = fn in (0, 2)
     spin = fn in (0, 1)
     nv = rng.randint(1, 5)
@@ -176,7 +185,8 @@ def gen_case(rng, tier, T_modes=("zero", "pos", "mixed", "named", "empty")):
     else:
         kind = None if form == "dict" else rng.choice([k for k in fam if k.endswith("Matrix") == (form == "matrix")])
     uni = 'int' if (kind and kind.endswith("Matrix")) else rng.choice(['int', 'pool'])
-    t, labs = gen_model(rng, fn, uni)
+    wide = rng.random() < 0.1
+    t, labs = gen_model(rng, fn, uni, dyw if wide else dy)
     if kind in QUAD:
         t = [(k, v) for k, v in t if len(k) <= 2]
     if rng.random() < 0.06:
